@@ -12,6 +12,8 @@ L == [ id |-> "lib1",
        files |-> [ f1 |-> << Fact("base", <<Num(1)>>), Fact("base", <<Num(2)>>), Rule(A("p", <<X>>), <<<<"pos", A("base", <<X>>)>>>>) >>,
                    f2 |-> << Rule(A("q", <<X>>), <<<<"pos", A("p", <<X>>)>>, <<"neg", A("blocked", <<X>>)>>>>), Fact("blocked", <<Num(2)>>) >>,
                    f3 |-> << Fact("r", <<Num(1)>>), Fact("r", <<Num(5)>>) >>,
+                   \* a fragment that contributes no fact at all (its only rule derives nothing)
+                   f5 |-> << Rule(A("n", <<X>>), <<<<"pos", A("n", <<X>>)>>>>) >>,
                    f4 |-> << Fact("g", <<Num(1)>>), RuleE(A("always", <<X>>), <<<<"pos", A("g", <<X>>)>>>>) >> ],
        texts |-> [ d1 |-> [valid |-> TRUE,  clauses |-> << Rule(A("s", <<X>>), <<<<"pos", A("r", <<X>>)>>>>) >>],
                    d2 |-> [valid |-> TRUE,  clauses |-> << Fact("s", <<Num(7)>>) >>],
@@ -29,5 +31,5 @@ L == [ id |-> "lib1",
                    d9 |-> [valid |-> TRUE,  clauses |-> << Rule(A("u", <<X>>), <<<<"pos", A("base", <<Var("Y")>>)>>,
                                                                               <<"eq", X, Ap("fn:div", <<Num(6), Ap("fn:minus", <<Var("Y"), Num(1)>>)>>)>>>>) >>] ] ]
 TI == {"d1", "d2", "d3", "d4", "d5", "d6", "d7", "d8", "d9", "d10", "d11"}
-FS == {{"f1"}, {"f2"}, {"f3"}, {"f1", "f3"}, {"f4"}}
+FS == {{"f1"}, {"f2"}, {"f3"}, {"f1", "f3"}, {"f4"}, {"f5"}}
 =============================================================================
